@@ -490,3 +490,37 @@ func Deep() *rapid.Generator[[]byte] {
 		return []byte(out.String())
 	})
 }
+
+// LongDoc builds a document of lo..hi bytes that consists of many root blocks:
+// two to six generated pieces repeated in turn, separated by blank lines (and
+// a closing fence / comment end every so often, so that an unclosed construct
+// in a piece does not swallow the rest). It is the many-blocks counterpart of
+// Long, which mostly yields one huge block: here the streaming parser hands out
+// hundreds of blocks while its buffer is refilled many times.
+func LongDoc(lo, hi int) *rapid.Generator[[]byte] {
+	d := Doc()
+	return rapid.Custom(func(t *rapid.T) []byte {
+		size := rapid.IntRange(lo, hi).Draw(t, "size")
+		np := rapid.IntRange(2, 6).Draw(t, "npieces")
+		var pieces [][]byte
+		for i := 0; i < np; i++ {
+			p := d.Draw(t, "piece")
+			if len(p) > 1500 {
+				p = p[:1500]
+			}
+			pieces = append(pieces, p)
+		}
+		sep := []string{"\n\n", "\r\n\r\n", "\n\n", "\n```\n\n", "\n-->\n\n", "\r\r"}[rapid.IntRange(0, 5).Draw(t, "sep")]
+		out := make([]byte, 0, size+2048)
+		for i := 0; len(out) < size; i++ {
+			out = append(out, pieces[i%len(pieces)]...)
+			out = append(out, sep...)
+			if i%7 == 6 {
+				out = append(out, "para "...)
+				out = strconv.AppendInt(out, int64(i), 10)
+				out = append(out, " &amp; [x]\n\n"...)
+			}
+		}
+		return out
+	})
+}
